@@ -145,7 +145,7 @@ def main(tier):
         return 1 if (res['x'] or crash_class(res)) else 0
     h = make_harness()
     ex = Explorer('C12', tier, h, 'fileio', 'c12.py')
-    ex.deadline = time.time() + (100 if tier == 'quick' else 560)
+    ex.deadline = time.time() + (240 if tier == 'quick' else 900)
     depth = bfs(ex, alphabet, make_judge(ex), 3 if tier == 'quick' else 4, describe)
     conf = {k: v for k, v in h.conflicts.items() if k in OPNAME.values()}
     if conf:
